@@ -52,7 +52,7 @@ func init() {
 		ID: "C17",
 		Explanation: "Decides structural necessary conditions of 'builds never clobber inputs; failed builds write nothing' on every path: R1 file-mutating calls of the standard library exist only at the reviewed owner sites (nothing in bundler, linker, resolver, cache, parsers or printers can touch the file system); R2 the build's WriteFile/MkdirAll are dominated by 'no errors' (shouldWriteFiles = !log.HasErrors(), computed after Compile and the cancel check), by args.write and by not-stdout; stdout output and result.Metafile/MangleCache are set only without errors; R3 the argument of os.Remove comes only from keys of the previous build's own hash table that are absent from the new one, and that table is only ever assigned from rebuildImpl's result; R4 Compile runs the input-collision check on every path that returns output files unless AllowOverwrite/WriteToStdout, both sides canonicalised by the same function, and AllowOverwrite is forced on only when not writing. R4 also decides that every file-namespace input is inserted into the input-path set unconditionally (no filter between the gates and the insert). NOT covered: path arithmetic (whether a name template escapes outdir), symlink/case aliasing on a real file system, user-chosen --metafile/--mangle-cache paths.",
 		Run: func(p *Prog, tier string) []*RuleResult {
-			return []*RuleResult{c17Mutators(p), c17WriteGate(p), c17DeleteProvenance(p), c17OverwriteCheck(p)}
+			return []*RuleResult{c17Mutators(p), c17WriteGate(p), c17DeleteProvenance(p), c17OverwriteCheck(p), c17OptionsAfterPlugins(p)}
 		},
 	})
 }
@@ -892,4 +892,95 @@ func canRunBefore(a, b ssa.Instruction) bool {
 		work = append(work, x.Succs...)
 	}
 	return false
+}
+
+// C17/R5 options are read after the plugins ran.
+//
+// Plugins may change build.InitialOptions in their setup callback (loadPlugins passes &buildOpts).
+// Everything the context keeps from the options must therefore be read after loadPlugins returned:
+// a value captured before — `write` in particular — can disagree with what validateBuildOptions
+// saw afterwards (a plugin that sets Write = false makes validation force AllowOverwrite on and
+// skip the input/output collision check, while a stale write = true still writes every file).
+// Rule: in contextImpl, every load of a BuildOptions field whose value is stored into a rebuildArgs
+// field is dominated by the call of loadPlugins.
+var c17EarlyOptionReads = ExcTable{
+	"contextImpl rebuildArgs.absWorkingDir from BuildOptions.AbsWorkingDir": "the working directory is fixed before the plugins run on purpose (the file system and the plugins are created with it); contextImpl panics ('Mutating \"AbsWorkingDir\" is not allowed') if a plugin changed it",
+}
+
+func c17OptionsAfterPlugins(p *Prog) *RuleResult {
+	r := NewRule("C17/R5 options-after-plugins", "every build option the context keeps (write, mangle cache, …) is read from the options after the plugins' setup callbacks had the chance to change them")
+	fn := p.FindFunc("pkg/api.contextImpl")
+	if !r.Anchor("pkg/api.contextImpl", fn != nil) {
+		return r
+	}
+	var lp *ssa.Call
+	eachInstr(fn, func(b *ssa.BasicBlock, in ssa.Instruction) {
+		if c, ok := in.(*ssa.Call); ok && strings.HasSuffix(FuncNameOf(c), "pkg/api.loadPlugins") {
+			lp = c
+		}
+	})
+	if !r.Anchor("contextImpl: call of loadPlugins", lp != nil) {
+		return r
+	}
+	n := 0
+	eachInstr(fn, func(b *ssa.BasicBlock, in ssa.Instruction) {
+		st, ok := in.(*ssa.Store)
+		if !ok {
+			return
+		}
+		fa, ok := st.Addr.(*ssa.FieldAddr)
+		if !ok || namedTypeName(fa.X.Type()) != "pkg/api.rebuildArgs" {
+			return
+		}
+		// a direct copy of a BuildOptions field (values computed from the options before the plugins
+		// ran — log options, the working directory, which plugins may not change — are not copies)
+		val := st.Val
+		for {
+			if cv, ok := val.(*ssa.Convert); ok {
+				val = cv.X
+				continue
+			}
+			if cv, ok := val.(*ssa.ChangeType); ok {
+				val = cv.X
+				continue
+			}
+			break
+		}
+		func(v ssa.Value) bool {
+			u, ok := v.(*ssa.UnOp)
+			if !ok || u.Op != token.MUL {
+				return true
+			}
+			src, ok := u.X.(*ssa.FieldAddr)
+			if !ok || namedTypeName(src.X.Type()) != "pkg/api.BuildOptions" {
+				return true
+			}
+			n++
+			r.Instances++
+			key := "contextImpl rebuildArgs." + fieldAddrName(fa) + " from BuildOptions." + fieldAddrName(src)
+			after := false
+			if u.Block() == lp.Block() {
+				for _, x := range u.Block().Instrs {
+					if x == ssa.Instruction(lp) {
+						after = true
+					}
+					if x == ssa.Instruction(u) {
+						break
+					}
+				}
+			} else {
+				after = lp.Block().Dominates(u.Block())
+			}
+			if after {
+				r.OK(key, true, "read after loadPlugins returned")
+			} else if r.CheckExc(c17EarlyOptionReads, key) {
+			} else {
+				r.Fail(key, p.Pos(u.Pos()), "BuildOptions."+fieldAddrName(src)+" is read before the plugins' setup callbacks ran (loadPlugins may change it through build.InitialOptions): the context keeps a value that disagrees with the validated options — for Write, validation forces AllowOverwrite on for Write=false and skips the overwrite check while the stale write=true still writes the files")
+			}
+			return false
+		}(val)
+	})
+	r.Anchor("rebuildArgs fields read from BuildOptions", n >= 2)
+	r.StaleCheck(c17EarlyOptionReads)
+	return r
 }
